@@ -31,7 +31,9 @@ fn draw_hash(t: &mut Tape, n: usize, mult: u64, add: u64) -> u64 {
         1..=3 => {
             // pre-image of a shard boundary (or one below it)
             let nn = n.max(2);
-            let j = t.draw(nn as u64) as usize;
+            // (the last shards get their share: indices that need more than
+            //  four hex digits exist only there)
+            let j = if t.draw(3) == 0 { nn - 1 - (t.draw(3) as usize).min(nn - 1) } else { t.draw(nn as u64) as usize };
             let y = boundary(j, nn).wrapping_sub(t.draw(2));
             y.wrapping_sub(add).wrapping_mul(inv_odd(mult))
         }
@@ -44,7 +46,7 @@ impl Check for C12 {
         "C12"
     }
     fn rule(&self) -> String {
-        "(hash, secondary hash, n) triples: boundary constants, pre-images of shard boundaries under the documented mixers (solved through the modular inverse of the odd multiplier), pairs whose primary and secondary images coincide (fix-up incl. the wrap n-1 -> 0), and uniform values; n in 0..70 and {128,255,256,257,4096,65537}. Per triple: a lookup on an empty sharded directory by a fresh process (probe paths and order from the call trace), then put+set by process A whose load estimates were skewed by unrelated writes so that the entry may land in the secondary shard, then lookups by fresh processes B and C through sharded::Cache, Cache and ReadOnlyCache; every handle is opened with its own capacity argument (from below the shard count to 10^6). Oracle: independent reimplementation with literal mixer constants. Non-trivial = primary and secondary images collided, or a boundary pre-image was used, or the entry landed in the secondary shard; distinct = hash of (n, shard pair, class of hash, where it landed, reader kinds)".to_string()
+        "(hash, secondary hash, n) triples: boundary constants, pre-images of shard boundaries under the documented mixers (solved through the modular inverse of the odd multiplier), pairs whose primary and secondary images coincide (fix-up incl. the wrap n-1 -> 0), and uniform values; n in 0..70 and {128,255,256,257,4096,65536,65537,65538,100000,1048577} (boundary pre-images favour the last shards, whose indices need five hex digits). Per triple: a lookup on an empty sharded directory by a fresh process (probe paths and order from the call trace), then put+set by process A whose load estimates were skewed by unrelated writes so that the entry may land in the secondary shard, then lookups by fresh processes B and C through sharded::Cache, Cache and ReadOnlyCache; every handle is opened with its own capacity argument (from below the shard count to 10^6). Oracle: independent reimplementation with literal mixer constants. Non-trivial = primary and secondary images collided, or a boundary pre-image was used, or the entry landed in the secondary shard; distinct = hash of (n, shard pair, class of hash, where it landed, reader kinds)".to_string()
     }
     fn runs(&self, tier: Tier) -> u64 {
         match tier {
@@ -55,7 +57,7 @@ impl Check for C12 {
     fn run(&self, tape: &mut Tape, ctx: &RunCtx) -> RunOut {
         let mut out = RunOut::default();
         let kn = draw_knobs(tape);
-        let n: usize = if tape.draw(5) == 4 { *tape.pick(&[128usize, 255, 256, 257, 4096, 65537, 0, 1, 2, 3]) } else { tape.draw(71) as usize };
+        let n: usize = if tape.draw(5) == 4 { *tape.pick(&[128usize, 255, 256, 257, 4096, 65537, 0, 1, 2, 3, 65536, 65538, 100_000, 1_048_577]) } else { tape.draw(71) as usize };
         let n_eff = n.max(2);
         let hash = draw_hash(tape, n, PRIMARY_MULT, PRIMARY_ADD);
         let force_collide = tape.draw(4) == 3;
